@@ -329,3 +329,52 @@ prop(
     ],
     floor={"quick": 200, "thorough": 2000},
 )
+
+prop(
+    "C06",
+    title="Format detection is correct, layout-independent and non-consuming",
+    level="exploration",
+    technique="property-based testing: writer output x formats x indents x JSON re-encodings, plus generated near-miss declarations checked against an independent top-level decode (rapid)",
+    design_ref="DESIGN.md §5 C06",
+    rule=("Positive: documents from the C01/C02 generators written as SPDX 2.3 and CycloneDX 1.3/1.4/1.5 at indent 0-8, each also in 3 re-encodings "
+          "(declaration members moved last, white space, member order, \\uXXXX escapes). Negative/totality: objects over declaration keys (incl. case "
+          "variants, duplicates) x values (supported / unsupported versions, near misses, wrong types, null, nested), declarations nested or inside arrays, "
+          "trailing data, scalars, byte strings, tag-value look-alikes; every stream wrapped to record its offset and to inject a failing Seek at call 1..3. "
+          "Non-trivial = positive case whose encoding differs from the writer's bytes / negative case that is a JSON object; distinct = digest of the input bytes."),
+    assumptions=["for tag-value results only the necessary condition is asserted (an SPDXVersion tag and the version token occur in the input); the line sniffer's heuristics are not specified further",
+                 "completeness on generated inputs is asserted only for clean declarations (each declaration member once, a string)"],
+    level_text=("detection returns exactly the written format; never panics; returns format xor error; leaves the stream at offset 0 on every path; a reported JSON "
+                "format agrees with an independent decode of the top-level declaration and with the format's type/version/encoding accessors; a following "
+                "ParseStream sees the whole document."),
+    level_note="trusts rapid, the harness's JSON model and its independent declaration decoder (harness/props/c06_test.go)",
+    jobs=[
+        {"test": "TestC06Positive", "checks": 600, "timeout": 400, "thorough": {"checks": 8000, "shards": 10, "timeout": 1700}},
+        {"test": "TestC06Negative", "checks": 4000, "timeout": 300, "thorough": {"checks": 60000, "shards": 6, "timeout": 1700}},
+        {"test": "TestC06Accessors", "rapid": False, "timeout": 60},
+    ],
+    floor={"quick": 1000, "thorough": 20000},
+)
+
+prop(
+    "C07",
+    title="Serializers are total and deterministic on arbitrary documents",
+    level="exploration",
+    technique="property-based testing over reflection-populated Document values with hand-shaped extremes, watchdog + journal for hangs and process death, A-B-A determinism histories (rapid) + exhaustive shape pairs",
+    design_ref="DESIGN.md §5 C07",
+    rule=("Documents populated by reflection over the schema (out-of-range enum numbers included, ids from a four-letter pool so that references resolve or "
+          "dangle) plus 0-3 shape operations from a menu of 29 (nil/empty metadata and node list, freshly unmarshalled empty document, nil entries in every repeated "
+          "message field, document types without name/type, RUNTIME and out-of-range types, duplicate and empty ids, no/one/many/dangling roots, dangling edges, "
+          "self containment, containment cycles, a chain of 25 diamonds, out-of-range node/edge/purpose/hash enums, non-numeric version); nil or 0-8 indent; every "
+          "registered format; sequences A,B,A through one writer and A through a fresh writer. Exhaustive: every single and ordered pair of shape operations on a "
+          "reference document. Non-trivial = document with at least one shape operation; distinct = digest of base bytes and operations."),
+    assumptions=["outputs are compared as JSON with creation timestamps blanked and every array sorted (a sound over-approximation of 'up to the order of set-valued arrays')",
+                 "render indentation is a non-negative configuration value"],
+    level_text=("every write returns error xor non-empty valid JSON, without panic, watchdog hit (10 s) or process death (journalled case re-executed alone), leaves "
+                "the document unchanged, and equals the output of writing the same document again after another document and through a fresh writer."),
+    level_note="trusts rapid, the canonical JSON form in harness/hx/jsonmodel.go; the beta SPDX 3 serializer is covered by its own binary (see DESIGN)",
+    jobs=[
+        {"test": "TestC07", "checks": 1200, "timeout": 400, "replay_test": "TestC07Replay", "thorough": {"checks": 12000, "shards": 12, "timeout": 1700}},
+        {"test": "TestC07Shapes", "rapid": False, "exhaustive": True, "replay_test": "TestC07Replay", "timeout": 400},
+    ],
+    floor={"quick": 300, "thorough": 3000},
+)
